@@ -130,7 +130,8 @@ type vfC13Run struct {
 	made    map[int]string // aid -> class the attempt's error object was made for
 	polName string
 
-	maxDelay time.Duration
+	maxDelay  time.Duration
+	retLogged bool // the return event has been logged (mu)
 }
 
 func vfC13Gid() int64 {
@@ -584,6 +585,7 @@ func (r *vfC13Run) logReturn(it *Iter) {
 	r.mu.Lock()
 	defer r.mu.Unlock()
 	ev := vfC13Ev{Ev: "return"}
+	r.retLogged = true
 	if it == nil {
 		ev.X = "nil-iter"
 	} else {
@@ -756,7 +758,7 @@ func vfC13Replay(c *vfC13Case, polName string) (sum vfC13Summary, begin vfC13Beg
 			}
 		case "cancel":
 			r.mu.Lock()
-			if returned() {
+			if r.retLogged {
 				// executeQuery already returned (an unexpected early result): a cancellation
 				// now would be logged after the fact and mean nothing
 				r.mu.Unlock()
@@ -887,9 +889,7 @@ func vfC13Free(id int, seed int64) (sum vfC13Summary, begin vfC13Begin, log []vf
 			select {
 			case <-time.After(cancelAfter):
 				r.mu.Lock()
-				select {
-				case <-done: // too late to matter: do not log a cancellation after the return
-				default:
+				if !r.retLogged { // else too late to matter: no cancellation is logged after the return
 					r.log = append(r.log, vfC13Ev{Ev: "cancel"})
 					r.cancel()
 				}
